@@ -1,4 +1,5 @@
 import PhyloModel.Props.C06
+import PhyloModel.Split.Symm
 /-! # C07 — weighted RF and branch-score distances match their definitions
 
 `SPM.wrf`, `SPM.kf2`, `SPM.compareTopologies`, `SPM.compareBranches` mirror `weighted_robinson_foulds`,
@@ -144,5 +145,39 @@ theorem branch_listing (s o : Rose) (ps po : List Part) (ms mo : List (Side × N
 
 /-- non-vacuity: |2·3 − 2·5| = 2·|3 − 5| on a one-split example -/
 example : sumOver iabs (scaleM 2 [([false, true, true, false], 1, 3)]) (scaleM 2 [([false, true, true, false], 1, 5)]) = 4 := by decide
+
+/-- **symmetry**: both distances do not depend on the order of the two trees (whenever they are defined) -/
+theorem symmetric (s o : Rose) (v : Int) :
+    (wrf s o = .ok v → wrf o s = .ok v) ∧ (kf2 s o = .ok v → kf2 o s = .ok v) := by
+  have key : ∀ (f : Int → Int), (∀ x, f (-x) = f x) →
+      ((do let ms ← (partitions s) >>= withLengths
+           let mo ← (partitions o) >>= withLengths
+           pure (sumOver f ms mo) : QR Int) = .ok v) →
+      ((do let ms ← (partitions o) >>= withLengths
+           let mo ← (partitions s) >>= withLengths
+           pure (sumOver f ms mo) : QR Int) = .ok v) := by
+    intro f hf h
+    cases hps : partitions s with
+    | err e => simp [hps] at h
+    | panic => simp [hps] at h
+    | ok ps =>
+      cases hms : withLengths ps with
+      | err e => simp [hps, hms] at h
+      | panic => simp [hps, hms] at h
+      | ok ms =>
+        cases hpo : partitions o with
+        | err e => simp [hps, hms, hpo] at h
+        | panic => simp [hps, hms, hpo] at h
+        | ok po =>
+          cases hmo : withLengths po with
+          | err e => simp [hps, hms, hpo, hmo] at h
+          | panic => simp [hps, hms, hpo, hmo] at h
+          | ok mo =>
+            simp only [hps, hms, hpo, hmo, QR.bind_ok, QR.pure_eq, QR.ok.injEq] at h ⊢
+            rw [← h]
+            exact sumOver_symm f hf mo ms
+              (by rw [withLengths_keys po mo hmo]; exact C05.partitions_nodup o po hpo)
+              (by rw [withLengths_keys ps ms hms]; exact C05.partitions_nodup s ps hps)
+  exact ⟨key iabs iabs_neg, key (fun x => x * x) (fun x => Int.neg_mul_neg x x)⟩
 
 end C07
